@@ -314,4 +314,83 @@ def execute (s : Sys) (c : Cfg) (fuel : Nat) (st : MState) (start : Vec) : Run (
   | .newton =>
     mdaLoop (jacobiSweep s) (residOn c.res) norm (newtonUpdate s c) tolSq c.maxIter fuel 0 start {} st.sd [] []
 
+-- ------------------------------------------------------------------ which variables an MDA resolves
+
+/-- `CouplingStructure._compute_strong_couplings` for ONE group of strongly coupled disciplines:
+    `sorted(set(inputs of the group) & set(outputs of the group))`. Variables are numbered in the order of their
+    sorted names (`nvars` of them); `reads` / `writes` list, per discipline of the group, the variables of its
+    input / output grammar. A variable that a discipline only feeds back to itself is one of them. -/
+def strongCouplingVars (nvars : Nat) (reads writes : List (List Nat)) : List Nat :=
+  (List.range nvars).filter (fun v => reads.any (·.contains v) && writes.any (·.contains v))
+
+/-- The components (rows) of the resolved variables, in the order of the resolved vector;
+    `vars[v]` = the components of variable `v`. -/
+def componentsOf (vars : List (List Nat)) (vs : List Nat) : List Nat := vs.flatMap (fun v => vars.getD v [])
+
+/-- Positions, in the resolved vector, of each resolved variable (for `initial_subresidual_norm`). -/
+def positionsOf (vars : List (List Nat)) : Nat → List Nat → List (List Nat)
+  | _, [] => []
+  | pos, v :: vs =>
+    let n := (vars.getD v []).length
+    (List.range n).map (· + pos) :: positionsOf vars (pos + n) vs
+
+-- ------------------------------------------------------------------ settings of the inner MDAs of a composition
+
+/-- Settings as the code handles them when it builds an inner MDA: a dictionary from names to values. -/
+abbrev Settings := List (String × Rat)
+
+def Settings.get? (s : Settings) (k : String) : Option Rat := (s.find? (·.1 == k)).map (·.2)
+
+/-- Python's `a | b` on dictionaries: the entries of `b` prevail. -/
+def Settings.union (a b : Settings) : Settings := b ++ a.filter (fun e => !(b.any (·.1 == e.1)))
+
+/-- The fields of `BaseMDASettings` that are plain numbers / flags in this model. -/
+def baseFields : List String := ["tolerance", "max_mda_iter", "warm_start"]
+
+/-- `MDAChain.__create_inner_mda_settings` (and `MDAGSNewton.__update_inner_mda_settings`):
+    `dict(inner_mda_settings) | {name: value for the BaseMDASettings fields of the composed MDA}`;
+    `given` is the dictionary OR the full content of the Pydantic model the user passed. -/
+def innerSettings (chain given : Settings) : Settings :=
+  given.union (chain.filter (fun e => baseFields.contains e.1))
+
+-- ------------------------------------------------------------------ MDAChain: a chain of MDAs and disciplines
+
+/-- A strongly connected component of the coupling graph, as `MDAChain` sees it. -/
+structure Group where
+  /-- the disciplines of the component, in the order in which the chain lists them, each one its rows -/
+  discs : List (List Nat)
+  /-- `CouplingStructure.is_self_coupled` of the discipline (one of its outputs is one of its inputs) -/
+  selfCoupled : Bool
+  /-- the discipline is itself an MDA (`isinstance(discipline, BaseMDA)`) -/
+  isMda : Bool
+  /-- the configuration of the inner MDA created for the component -/
+  cfg : Cfg
+  deriving Repr
+
+/-- `MDAChain.__requires_mda`. -/
+def requiresMda (g : Group) : Bool :=
+  g.discs.length > 1 || (g.discs.length == 1 && g.selfCoupled && !g.isMda)
+
+/-- Row `i` that leaves component `i` unchanged. -/
+def idRow (n i : Nat) : Row := ⟨0, (List.range n).map (fun j => if j = i then 1 else 0)⟩
+
+/-- The sub-system of an inner MDA inside the data of the chain: the rows of the other disciplines are
+    replaced by identities (an inner MDA only executes its own disciplines). -/
+def restrict (s : Sys) (ds : List (List Nat)) : Sys :=
+  ⟨(List.range s.rows.length).map (fun i =>
+      if ds.any (·.contains i) then s.rows.getD i ⟨0, []⟩ else idRow s.rows.length i), ds⟩
+
+/-- One process of the MDO chain: an inner MDA when the component requires one, else the discipline once. -/
+def chainStep (s : Sys) (fuel : Nat) (acc : Vec × List (Run (Option ScalData))) (g : Group) :
+    Vec × List (Run (Option ScalData)) :=
+  if requiresMda g then
+    let r := execute (restrict s g.discs) g.cfg fuel {} acc.1
+    (r.data, acc.2 ++ [r])
+  else (gsSweep (restrict s g.discs) acc.1, acc.2)
+
+/-- `MDAChain._execute`: the components are processed in the order of the execution sequence;
+    returns the final data and the runs of the inner MDAs. -/
+def chainExecute (s : Sys) (groups : List Group) (fuel : Nat) (start : Vec) : Vec × List (Run (Option ScalData)) :=
+  groups.foldl (chainStep s fuel) (start, [])
+
 end GV.C06
